@@ -146,6 +146,36 @@ sys.exit(0)
     return acc.finish()
 
 
+def module_worker(modname: str) -> Dict[str, Any]:
+    """One unit module imported on its own (with what it imports itself): the declarations
+    visible then must be consistent too, and its named units must reach SI."""
+    from engine import oracle as om
+
+    orc = om.load([modname])
+    families._orc = orc
+    res = orc.consistency(1e-5)
+    import measured
+
+    out = {"module": modname, "declarations": res["declarations"], "status": res["status"],
+           "cores": [(core_signature(c), " ; ".join(d.describe() for d in c), core_replay(c))
+                     for c in res["cores"]], "unconnected": [], "units": 0, "queries": res["queries"],
+           "solver_s": res["solver_s"]}
+    with symnum.Shims():
+        for n, u in list(measured.Unit._by_name.items()):
+            if u.dimension is measured.Number:
+                continue
+            si = si_unit(u.dimension)
+            if si is None or si is u:
+                continue
+            out["units"] += 1
+            for src, dst in ((u, si), (si, u)):
+                cv = convterm.convert(src, dst, "float")
+                if cv.outcome != "ok":
+                    out["unconnected"].append((n, cv.outcome))
+                    break
+    return out
+
+
 def main(tier: str, selftest_cases: int = 0) -> int:
     rep = report.Report(PID, tier, "other")
     orc = families.boot()
@@ -190,6 +220,40 @@ def main(tier: str, selftest_cases: int = 0) -> int:
     names = families.shuffled(names, rep.seed)
     results = par.run("props.c09", "worker", [("conn", ch) for ch in par.chunks(names, 16)])
     work.merge(rep, results)
+    if tier == "thorough":
+        mods = ["si", "us", "avoirdupois", "troy", "energy", "astronomical", "natural", "metric", "iec",
+                "iso", "eu", "fff", "apocrypha", "computing", "acoustics", "electronics", "music"]
+        for r in par.run("props.c09", "module_worker", mods, maxtasksperchild=1):
+            rep.merge_stats(queries=r["queries"], solver_s=r["solver_s"])
+            rep.ob("unsat" if r["status"] == "decided" and not r["cores"] else
+                   ("unknown" if r["status"] != "decided" else "sat"),
+                   f"module {r['module']} imported alone: {r['declarations']} declarations consistent",
+                   ("module", r["module"]))
+            for sig, what, body in r["cores"]:
+                rep.violation(sig, f"(module {r['module']} alone) shipped declarations disagree: {what}", body)
+            names_bad = sorted({n for n, _ in r["unconnected"]})
+            rep.ob("unsat" if not names_bad else "sat",
+                   f"module {r['module']} imported alone: {r['units']} named units reach SI", ("modconn", r["module"]))
+            for n in names_bad:
+                rep.violation(f"C09:connectivity:{n}:to-SI", f"(module {r['module']} alone) {n} does not "
+                              "convert to/from SI", families.REPLAY_IMPORTS + f"""
+u = measured.Unit.named({n!r})
+from props_c09_si import si_unit
+""".replace("from props_c09_si import si_unit\n", "") + f"""
+import measured.si as si
+from measured import One
+by = {{measured.Length: si.Meter, measured.Time: si.Second, measured.Mass: si.Kilogram, measured.Temperature: si.Kelvin,
+      measured.Charge: si.Coulomb, measured.AmountOfSubstance: si.Mole, measured.LuminousIntensity: si.Candela,
+      measured.Information: measured.Unit._by_name.get('bit')}}
+S = One
+for fund, e in zip(measured.Dimension.fundamental(), u.dimension.exponents):
+    if e: S = S * by[fund] ** e
+try:
+    print((1 * u).in_unit(S), (1 * S).in_unit(u))
+except Exception as e:
+    print('REPRODUCED: named unit does not convert to/from SI:', type(e).__name__); sys.exit(1)
+sys.exit(0)
+""")
     rep.functions.update(cc.FUNCTIONS + ["measured.conversions.equate (recorded)",
                                          "measured.conversions.translate (recorded)",
                                          "all shipped unit modules (declarations)"])
